@@ -46,17 +46,24 @@ func openHist(filename string) (list []Item, err error) {
 		return list, fmt.Errorf("%w: %s", errOpenHistoryFile, err.Error())
 	}
 
-	scanner := bufio.NewScanner(file)
-	for scanner.Scan() {
+	// Lines have no length limit (a bufio.Scanner would silently
+	// stop at the first record bigger than its token buffer).
+	reader := bufio.NewReader(file)
+
+	for {
+		line, readErr := reader.ReadBytes('\n')
+
 		var item Item
 
-		err := json.Unmarshal(scanner.Bytes(), &item)
-		if err != nil || len(item.Block) == 0 {
-			continue
+		err := json.Unmarshal(line, &item)
+		if err == nil && len(item.Block) != 0 {
+			item.Index = len(list)
+			list = append(list, item)
 		}
 
-		item.Index = len(list)
-		list = append(list, item)
+		if readErr != nil {
+			break
+		}
 	}
 
 	file.Close()
@@ -94,9 +101,18 @@ func (h *fileHistory) Write(s string) (int, error) {
 		return h.Len(), err
 	}
 
-	f, err := os.OpenFile(h.file, os.O_APPEND|os.O_CREATE|os.O_WRONLY, 0o600)
+	f, err := os.OpenFile(h.file, os.O_APPEND|os.O_CREATE|os.O_RDWR, 0o600)
 	if err != nil {
 		return 0, fmt.Errorf("%w: %s", errOpenHistoryFile, err.Error())
+	}
+
+	// If an earlier append was cut short (crash, full disk), the file does not
+	// end with a newline: start on a new line so that this record stays readable.
+	if info, serr := f.Stat(); serr == nil && info.Size() > 0 {
+		last := make([]byte, 1)
+		if _, rerr := f.ReadAt(last, info.Size()-1); rerr == nil && last[0] != '\n' {
+			data = append([]byte{'\n'}, data...)
+		}
 	}
 
 	if cut, verr := verifFileFault(len(data) + 1); verr != nil {
